@@ -35,6 +35,7 @@ Import ListNotations.
 Open Scope string_scope.
 '''
 KNOWN_RETYPED = 'plutus-data-retyped'
+KNOWN_KEY = 'witness-key-retyped'
 
 
 def regen(ctx):
@@ -95,6 +96,8 @@ def evaluate(cases, results, shard=120):
         if not impl_ok:
             if 'cost_models' in r.get('flags', []) and r.get('decode') in ('DeserializeException', 'Other:AttributeError'):
                 ofail[i] = 'cost-models-bare-dict'
+            elif 'typed_vkey' in r.get('flags', []) and r.get('decode') == 'ok' and r.get('reenc') == r['cbor'] and not retyped_region(r):
+                ofail[i] = KNOWN_KEY
             else:
                 ofail[i] = KNOWN_RETYPED if retyped_region(r) and r.get('decode') == 'ok' and r.get('reenc') == r['cbor'] else 'roundtrip'
         if 'pv' in r:
@@ -154,7 +157,7 @@ def correspond(ctx, n=None):
 def search(ctx, mism):
     ctx.rng.seed(f'search-{ctx.seed}')
     r = correspond(ctx, 6000 if ctx.quick else 60000)
-    bad = [f for f in r['oracle_fail'] if f['region'] not in (KNOWN_RETYPED, 'cost-models-bare-dict')]
+    bad = [f for f in r['oracle_fail'] if f['region'] not in (KNOWN_RETYPED, KNOWN_KEY, 'cost-models-bare-dict')]
     return bad[0] if bad else None
 
 
